@@ -33,6 +33,7 @@ class Config:
     emit: tuple = ()                 # tuple of (node index, emit pattern) - C19
     fault_exc: str = 'boom'          # what a faulty task raises: 'boom' (Exception) | 'exit' (SystemExit)
     corrupt: tuple = ()              # pre-cached nodes whose stored result file is damaged (metadata intact)
+    loglevel: str = 'INFO'           # level of the caller's labtech logger: 'INFO', or 'NOTSET' (then the root logger is at INFO) - C19
 
     def to_json(self):
         d = asdict(self)
@@ -47,7 +48,7 @@ class Config:
                       bust_cache=d['bust_cache'], cof=d['cof'], batch=d['batch'], stutter=d['stutter'],
                       context=None if d['context'] is None else tuple(tuple(x) for x in d['context']),
                       emit=tuple(tuple(x) for x in d.get('emit', ())), fault_exc=d.get('fault_exc', 'boom'),
-                      corrupt=tuple(d.get('corrupt', ())))
+                      corrupt=tuple(d.get('corrupt', ())), loglevel=d.get('loglevel', 'INFO'))
 
     def brief(self):
         return {'deps': self.spec.deps, 'types': self.spec.types, 'place': self.spec.place,
@@ -55,7 +56,18 @@ class Config:
                 'precached': self.precached, 'faults': self.faults, 'died': self.died,
                 'bust': self.bust_cache, 'cof': self.cof, **({'emit': self.emit} if self.emit else {}),
                 **({'fault_exc': self.fault_exc} if self.fault_exc != 'boom' else {}),
-                **({'corrupt': self.corrupt} if self.corrupt else {})}
+                **({'corrupt': self.corrupt} if self.corrupt else {}), **({'loglevel': self.loglevel} if self.loglevel != 'INFO' else {})}
+
+
+def call_run(lab, req, cfg, **kw):
+    """The documented single-task entry point, Lab.run_task, is used whenever exactly one task is
+    requested and nothing is planned to fail (it returns the bare result; a failing task has no
+    result to return, so those runs stay with run_tasks)."""
+    if cfg.bust_cache:
+        kw['bust_cache'] = True     # an ordinary call does not mention bust_cache
+    if len(req) == 1 and not cfg.faults and not cfg.died and not cfg.corrupt:
+        return {req[0]: lab.run_task(req[0], **kw)}
+    return lab.run_tasks(req, **kw)
 
 
 @dataclass
@@ -88,7 +100,7 @@ def run_once(cfg: Config, chooser: Chooser) -> Obs:
         lab = labtech.Lab(storage=storage, runner_backend=backend, continue_on_failure=cfg.cof,
                           notebook=False, context=ctx)
         try:
-            res = lab.run_tasks(req, **({'bust_cache': True} if cfg.bust_cache else {}), disable_progress=True, disable_top=True)
+            res = call_run(lab, req, cfg, disable_progress=True, disable_top=True)
             outcome = ('return', res)
         except Spin as e:
             outcome = ('spin', e)
